@@ -169,23 +169,45 @@ fn parse_sched(s: &str) -> Vec<u32> {
     s.split(',').filter_map(|x| x.parse().ok()).collect()
 }
 
-async fn with_schedule(shell: &mut vh::Sh, script: &str, sched: Vec<u32>, launched: u32, block_ms: u64) -> &'static str {
+/// Runs `script` (a `wait …`) while the environment completes `sched`.  `need` = the tasks that must
+/// have completed for this wait to return.  "blocked" is reported only when the environment is done
+/// and some needed task never completed (so the wall-clock timeout decides nothing when the wait is
+/// due to return: a slow machine cannot turn a returning wait into a blocked one).
+async fn with_schedule(shell: &mut vh::Sh, script: &str, sched: Vec<u32>, need: Vec<u32>, launched: u32, block_ms: u64) -> &'static str {
     let releaser = tokio::spawn(async move {
         for k in sched {
             release(k, launched).await;
         }
     });
-    let r = tokio::time::timeout(Duration::from_millis(block_ms), vh::run(shell, script)).await;
+    let t0 = std::time::Instant::now();
+    let r = {
+        let fut = vh::run(shell, script);
+        tokio::pin!(fut);
+        loop {
+            match tokio::time::timeout(Duration::from_millis(block_ms), &mut fut).await {
+                Ok(r) => break Some(r),
+                Err(_) => {
+                    if releaser.is_finished() && need.iter().any(|k| !ended(*k)) {
+                        break None;
+                    }
+                    if t0.elapsed() > Duration::from_secs(30) {
+                        break Some(Err("hung".to_string()));
+                    }
+                }
+            }
+        }
+    };
     let _ = releaser.await;
     match r {
-        Ok(Ok(0)) => "ok",
-        Ok(Ok(_)) => "fail",
-        Ok(Err(_)) => "error",
-        Err(_) => "blocked",
+        Some(Ok(0)) => "ok",
+        Some(Ok(_)) => "fail",
+        Some(Err(e)) if e == "hung" => "hung",
+        Some(Err(_)) => "error",
+        None => "blocked",
     }
 }
 
-async fn one_case(line: &str, block_ms: u64) -> String {
+async fn one_case(line: String, block_ms: u64) -> String {
     {
         let mut w = WORLD.lock().unwrap();
         w.gates.clear();
@@ -230,7 +252,8 @@ async fn one_case(line: &str, block_ms: u64) -> String {
                 }
             }
             "W" => {
-                let r = with_schedule(&mut shell, "wait", parse_sched(rest), launched, block_ms).await;
+                let need: Vec<u32> = (1..=launched).collect();
+                let r = with_schedule(&mut shell, "wait", parse_sched(rest), need, launched, block_ms).await;
                 extra = r.into();
                 if r == "blocked" {
                     stuck = true;
@@ -238,7 +261,11 @@ async fn one_case(line: &str, block_ms: u64) -> String {
             }
             "S" => {
                 let (spec, sched) = rest.split_once(':').unwrap_or((rest, ""));
-                let r = with_schedule(&mut shell, &format!("wait {spec} 2>/dev/null"), parse_sched(sched), launched, block_ms).await;
+                let need: Vec<u32> = match shell.jobs_mut().resolve_job_spec(spec) {
+                    Some(j) => tag_of(&j.command_line).parse().ok().into_iter().collect(),
+                    None => vec![],
+                };
+                let r = with_schedule(&mut shell, &format!("wait {spec} 2>/dev/null"), parse_sched(sched), need, launched, block_ms).await;
                 extra = r.into();
                 if r == "blocked" {
                     stuck = true;
@@ -303,7 +330,15 @@ fn main() {
     let rt = tokio::runtime::Builder::new_current_thread().enable_all().build().unwrap();
     rt.block_on(async move {
         for line in vh::lines() {
-            println!("{}", one_case(&line, block_ms).await);
+            // a panic inside brush's code (e.g. an index out of bounds in the job table) ends the case, not the harness
+            match tokio::spawn(one_case(line, block_ms)).await {
+                Ok(out) => println!("{out}"),
+                Err(e) => {
+                    println!("PANIC {}", if e.is_panic() { "brush code panicked" } else { "case cancelled" });
+                    // the world may hold gates of the dead case; the next case resets it
+                    if let Ok(mut w) = WORLD.lock() { w.gates.clear(); } else { WORLD.clear_poison(); }
+                }
+            }
         }
     });
 }
